@@ -37,11 +37,16 @@ justification:
      quantifier ("argument values not colliding with a flag or task name");
   3. `ValFlagOK.give`: the value is admissible for the parameter's kind (`int()` accepts it);
   4. `Item.glued`: the glued value is non-empty and does not start with `=` (`-n=v` IS the documented equals form);
-  5. `Item.pos`: a positional value is not flag-like (`isFlag v = false`), is not a core flag, and fills the FIRST
-     unfilled positional (meaning of "positional"; a positional given by flag must therefore come before a
-     positional token that would otherwise fill it);
+  5. `Item.pos`: a positional value is not flag-like, or is a flag-like token the parser does not pre-split (`-x`,
+     `--zzz`: no `=`, not a short token longer than two characters); it is not a core flag; it fills the FIRST
+     unfilled positional (meaning of "positional": a positional given by flag must therefore come before a
+     positional token that would otherwise fill it). Excluded point, real code: `inv t -xyz` / `inv t --zz=1` with
+     `def t(c, pos)` are pre-split and refused ("No idea what '-y' is!") — flag-like positional values are not a
+     documented form (`inv t --pos=-xyz` is, and is covered);
   6. `OptValueOK` (documented, "Optional flag values / Resolving ambiguity"): an optional-value flag takes a value
-     only when every positional of the task is filled, the value is not flag-like and is not a task name;
+     only when every positional of the task is filled and the value is not a task name; the value is not flag-like,
+     or no piece of it (the token, its part before `=`, its first two characters) is a flag of the task — then it "is
+     interpreted literally and stored as the value";
   7. `Item.optBare` + `FollowsBare` + `ChainOK` (same section): a bare optional-value flag comes after all
      positionals and is followed by another FLAG of the same task (whose first piece is not a task name) or ends the
      command line;
@@ -51,7 +56,7 @@ justification:
 
 NOT covered (hence `_partial`): the signature → `Ctx` step (`Task.get_arguments`, property C09) is taken from the
 real code by the correspondence check rather than modelled here; core options interleaved with task tokens (C18);
-a value spelled as a separate token that starts with `-` after an OPTIONAL-value flag (documented as ambiguous).
+values whose textual form `int()` accepts beyond ASCII sign+digits.
 -/
 open Inv Inv.M
 namespace Inv.C01
